@@ -12,6 +12,7 @@
 #include <fcppt/algorithm/binary_search.hpp>
 #include <fcppt/algorithm/contains.hpp>
 #include <fcppt/algorithm/contains_if.hpp>
+#include <fcppt/algorithm/equal.hpp>
 #include <fcppt/algorithm/equal_range.hpp>
 #include <fcppt/algorithm/find_by_opt.hpp>
 #include <fcppt/algorithm/find_if_opt.hpp>
@@ -49,6 +50,21 @@
 #include <fcppt/array/object.hpp>
 #include <fcppt/array/push_back.hpp>
 #include <fcppt/container/at_optional.hpp>
+#include <fcppt/container/contains.hpp>
+#include <fcppt/container/data.hpp>
+#include <fcppt/container/data_end.hpp>
+#include <fcppt/container/dynamic_array.hpp>
+#include <fcppt/container/find_opt.hpp>
+#include <fcppt/container/find_opt_iterator.hpp>
+#include <fcppt/container/insert.hpp>
+#include <fcppt/container/make.hpp>
+#include <fcppt/container/make_move_range.hpp>
+#include <fcppt/container/maybe_back.hpp>
+#include <fcppt/container/maybe_front.hpp>
+#include <fcppt/container/output.hpp>
+#include <fcppt/container/pop_back.hpp>
+#include <fcppt/container/pop_front.hpp>
+#include <fcppt/container/size.hpp>
 #include <fcppt/container/find_opt_mapped.hpp>
 #include <fcppt/container/get_or_insert.hpp>
 #include <fcppt/container/get_or_insert_with_result.hpp>
@@ -61,10 +77,13 @@
 #include <fcppt/container/set_intersection.hpp>
 #include <fcppt/container/set_union.hpp>
 #include <fcppt/enum/range_impl.hpp>
+#include <fcppt/iterator/make_range.hpp>
+#include <fcppt/iterator/range_impl.hpp>
 #include <fcppt/mpl/list/object.hpp>
 #include <fcppt/optional/object.hpp>
 #include <fcppt/range/begin.hpp>
 #include <fcppt/range/end.hpp>
+#include <fcppt/range/singular.hpp>
 #include <fcppt/tuple/concat.hpp>
 #include <fcppt/tuple/get.hpp>
 #include <fcppt/tuple/map.hpp>
@@ -79,6 +98,7 @@
 #include <list>
 #include <map>
 #include <optional>
+#include <sstream>
 #include <set>
 #include <string>
 #include <type_traits>
@@ -125,6 +145,48 @@ inline int val(en3 x) { return static_cast<int>(x); }
 inline int val(std::pair<int const, int> const &p) { return p.second; }
 template <typename T>
 inline int val(fcppt::tag<T>) { return T::value; }
+
+// probe element: a moved-from object shows the marker 9
+struct pe
+{
+  int v;
+  pe(int const x) : v(x) {} // NOLINT
+  pe(pe const &) = default;
+  pe(pe &&o) noexcept : v(o.v) { o.v = 9; }
+  pe &operator=(pe const &) = default;
+  pe &operator=(pe &&o) noexcept
+  {
+    if (&o != this) { v = o.v; o.v = 9; }
+    return *this;
+  }
+  ~pe() = default;
+  friend bool operator<(pe const &a, pe const &b) { return a.v < b.v; }
+  friend bool operator==(pe const &a, pe const &b) { return a.v == b.v; }
+};
+inline int val(pe const &p) { return p.v; }
+
+// probe target container for algorithm::map: records the calls of reserve()
+struct rc
+{
+  using value_type = int;
+  using size_type = std::size_t;
+  using iterator = std::vector<int>::iterator;
+  using const_iterator = std::vector<int>::const_iterator;
+  std::vector<int> impl{};
+  std::vector<std::size_t> reserved{};
+  void reserve(size_type const n) { reserved.push_back(n); impl.reserve(n); }
+  iterator begin() { return impl.begin(); }
+  iterator end() { return impl.end(); }
+  const_iterator begin() const { return impl.begin(); }
+  const_iterator end() const { return impl.end(); }
+  iterator insert(iterator const pos, int const x) { return impl.insert(pos, x); }
+  std::string cap() const
+  {
+    std::size_t m = 0;
+    for (auto const n : reserved) m = n > m ? n : m;
+    return std::to_string(m) + (reserved.size() > 1 ? "!multi" : "");
+  }
+};
 
 template <typename C>
 std::string ds(C const &c)
@@ -231,21 +293,84 @@ std::string ds_tuple(fcppt::tuple::object<Ts...> const &t)
 template <int... D>
 using ml = fcppt::mpl::list::object<std::integral_constant<int, D>...>;
 
+template <typename F, int... D>
+std::string with_mpl_rec(seq const &v, std::size_t const i, F const &f)
+{
+  if (i == v.size()) return f(ml<D...>{});
+  if constexpr (sizeof...(D) >= 3) return bad;
+  else
+    switch (v[i])
+    {
+    case 0: return with_mpl_rec<F, D..., 0>(v, i + 1, f);
+    case 1: return with_mpl_rec<F, D..., 1>(v, i + 1, f);
+    case 2: return with_mpl_rec<F, D..., 2>(v, i + 1, f);
+    default: return bad;
+    }
+}
+
 template <typename F>
 std::string with_mpl(seq const &v, F const &f)
 {
-  if (v.size() == 0) return f(ml<>{});
-  if (v.size() == 1)
-    switch (v[0]) { case 0: return f(ml<0>{}); case 1: return f(ml<1>{}); case 2: return f(ml<2>{}); default: return bad; }
-  if (v.size() == 2)
-    switch (v[0] * 3 + v[1])
-    {
-    case 0: return f(ml<0, 0>{}); case 1: return f(ml<0, 1>{}); case 2: return f(ml<0, 2>{});
-    case 3: return f(ml<1, 0>{}); case 4: return f(ml<1, 1>{}); case 5: return f(ml<1, 2>{});
-    case 6: return f(ml<2, 0>{}); case 7: return f(ml<2, 1>{}); case 8: return f(ml<2, 2>{});
-    default: return bad;
-    }
-  return bad;
+  return with_mpl_rec<F>(v, 0, f);
+}
+
+// arrays and tuples of probe elements
+template <std::size_t N>
+fcppt::array::object<pe, N> mk_parray(seq const &v, std::size_t const off)
+{
+  return fcppt::array::init<fcppt::array::object<pe, N>>(
+      [&v, off]<std::size_t I>(std::integral_constant<std::size_t, I>) { return pe{v[off + I]}; });
+}
+
+template <std::size_t N> struct ptuple_of;
+template <> struct ptuple_of<0> { using type = fcppt::tuple::object<>; };
+template <> struct ptuple_of<1> { using type = fcppt::tuple::object<pe>; };
+template <> struct ptuple_of<2> { using type = fcppt::tuple::object<pe, pe>; };
+template <> struct ptuple_of<3> { using type = fcppt::tuple::object<pe, pe, pe>; };
+
+template <std::size_t N>
+typename ptuple_of<N>::type mk_ptuple(seq const &v, std::size_t const off)
+{
+  if constexpr (N == 0) return fcppt::tuple::object<>{};
+  else if constexpr (N == 1) return fcppt::tuple::object<pe>{pe{v[off]}};
+  else if constexpr (N == 2) return fcppt::tuple::object<pe, pe>{pe{v[off]}, pe{v[off + 1]}};
+  else return fcppt::tuple::object<pe, pe, pe>{pe{v[off]}, pe{v[off + 1]}, pe{v[off + 2]}};
+}
+
+// pass x on as const lvalue (0), lvalue (1) or rvalue (2)
+template <typename T, typename G>
+std::string with_cat(ulong const cat, T &x, G const &g)
+{
+  switch (cat)
+  {
+  case 0: return g(std::as_const(x));
+  case 1: return g(x);
+  case 2: return g(std::move(x));
+  default: return bad;
+  }
+}
+// lvalue (1) or rvalue (2) only
+template <typename T, typename G>
+std::string with_cat2(ulong const cat, T &x, G const &g)
+{
+  switch (cat)
+  {
+  case 1: return g(x);
+  case 2: return g(std::move(x));
+  default: return bad;
+  }
+}
+#define FWD(x) std::forward<decltype(x)>(x)
+
+// tuple::concat with arguments of any value category; where the overload set rejects lvalue tuples (see notes/C16.md,
+// DEFECT CANDIDATE 2) an lvalue argument is replaced by an rvalue copy, which has the same observable effect
+template <typename T>
+decltype(auto) concat_arg(T &&t)
+{
+  using plain = std::remove_cvref_t<T>;
+  if constexpr (requires(plain &l) { fcppt::tuple::concat(l); }) return std::forward<T>(t);
+  else if constexpr (std::is_lvalue_reference_v<T>) return plain{t};
+  else return std::forward<T>(t);
 }
 
 // ---------------------------------------------------------------- sources
@@ -276,6 +401,19 @@ std::string with_ro(char const k, seq const &v, F const &f)
     fcppt::enum_::range<en3> const c{static_cast<unsigned>(v[0]), static_cast<unsigned>(v[1])};
     return f(c);
   }
+  default: return bad;
+  }
+}
+
+template <typename F>
+std::string with_vldf(char const k, seq const &v, F const &f)
+{
+  switch (k)
+  {
+  case 'v': { std::vector<int> const c(v.begin(), v.end()); return f(c); }
+  case 'l': { std::list<int> const c(v.begin(), v.end()); return f(c); }
+  case 'd': { std::deque<int> const c(v.begin(), v.end()); return f(c); }
+  case 'f': { std::forward_list<int> const c(v.begin(), v.end()); return f(c); }
   default: return bad;
   }
 }
@@ -318,6 +456,21 @@ std::string with_target(ulong const t, F const &f)
   }
 }
 
+// containers of probe elements: v l d
+template <typename F>
+std::string with_pseq(char const k, seq const &v, F const &f)
+{
+  switch (k)
+  {
+  case 'v': { std::vector<pe> c(v.begin(), v.end()); return f(c); }
+  case 'l': { std::list<pe> c(v.begin(), v.end()); return f(c); }
+  case 'd': { std::deque<pe> c(v.begin(), v.end()); return f(c); }
+  default: return bad;
+  }
+}
+
+std::string const skip{"skip"};
+
 template <typename C, typename It>
 std::string opt_idx(C &c, fcppt::optional::object<It> const &o)
 {
@@ -343,32 +496,46 @@ std::string eval_fn(std::string const &fn, char const k, std::vector<ulong> cons
   std::size_t const np = ps.size();
   if (k == 'a' && (v.size() > 6 || !all_lt3(v))) return bad;
   if (k == 't' && (v.size() > 3 || !all_lt3(v))) return bad;
-  if (k == 'p' && (v.size() > 2 || !all_lt3(v))) return bad;
+  if (k == 'p' && (v.size() > 3 || !all_lt3(v))) return bad;
   if ((k == 'v' || k == 'l' || k == 'd' || k == 'f' || k == 'm' || k == 's') && !all_lt3(v)) return bad;
 
   if (fn == "map" && np == 2)
   {
     ulong const t = ps[0], F = ps[1];
-    if (!(ro || k == 'a' || k == 'p') || t > 3 || F >= 27 || ((k == 'a' || k == 'p') && t != 0)) return bad;
+    if (!(ro || k == 'a' || k == 'p') || t > 4 || F >= 27 || ((k == 'a' || k == 'p') && t != 0 && t != 4)) return bad;
+    auto const show = [](auto const &r, seq const &log) {
+      if constexpr (std::is_same_v<std::remove_cvref_t<decltype(r)>, rc>) return ds(r) + "|" + ds(log) + "|" + r.cap();
+      else return ds(r) + "|" + ds(log);
+    };
+    auto const with_t = [&](auto const &f) {
+      if (t == 4) return f(rc{});
+      return with_target(t, f);
+    };
     if (k == 'a')
       return with_size<6>(v.size(), [&](auto n) {
         auto const src{mk_array<SZ(n)>(v, 0)};
-        seq log;
-        auto const r{alg::map<std::vector<int>>(src, [&](int const e) { log.push_back(e); return tbl_f(F, e); })};
-        return ds(r) + "|" + ds(log);
+        auto const go = [&](auto target) {
+          seq log;
+          auto const r{alg::map<decltype(target)>(src, [&](int const e) { log.push_back(e); return tbl_f(F, e); })};
+          return show(r, log);
+        };
+        return t == 4 ? go(rc{}) : go(std::vector<int>{});
       });
     if (k == 'p')
       return with_mpl(v, [&](auto list) {
-        seq log;
-        auto const r{alg::map<std::vector<int>>(list, [&](auto const tag) { log.push_back(val(tag)); return tbl_f(F, val(tag)); })};
-        return ds(r) + "|" + ds(log);
+        auto const go = [&](auto target) {
+          seq log;
+          auto const r{alg::map<decltype(target)>(list, [&](auto const tag) { log.push_back(val(tag)); return tbl_f(F, val(tag)); })};
+          return show(r, log);
+        };
+        return t == 4 ? go(rc{}) : go(std::vector<int>{});
       });
     return with_ro(k, v, [&](auto const &c) {
-      return with_target(t, [&](auto target) {
+      return with_t([&](auto target) {
         using target_type = decltype(target);
         seq log;
         auto const r{alg::map<target_type>(c, [&](auto const &e) { log.push_back(val(e)); return tbl_f(F, val(e)); })};
-        return ds(r) + "|" + ds(log);
+        return show(r, log);
       });
     });
   }
@@ -471,7 +638,11 @@ std::string eval_fn(std::string const &fn, char const k, std::vector<ulong> cons
         elem const value{static_cast<elem>(V)};
         if (fn == "contains")
           return b01(alg::contains(c, value));
-        return opt_idx(c, alg::find_opt(c, value));
+        // const range, non-const range, and (iterators into a temporary would dangle, so) an rvalue of a view type only where it is one
+        std::string const a{opt_idx(c, alg::find_opt(c, value))};
+        auto nc{c};
+        std::string const b{opt_idx(nc, alg::find_opt(nc, value))};
+        return a == b ? a : a + "!=" + b;
       }
       else
         return bad;
@@ -482,7 +653,11 @@ std::string eval_fn(std::string const &fn, char const k, std::vector<ulong> cons
     ulong const P = ps[0];
     if (!ro || P >= 8) return bad;
     return with_ro(k, v, [&](auto const &c) {
-      return opt_idx(c, alg::find_if_opt(c, [P](auto const &e) { return bit(P, val(e)); }));
+      auto const pred = [P](auto const &e) { return bit(P, val(e)); };
+      std::string const a{opt_idx(c, alg::find_if_opt(c, pred))};
+      auto nc{c};
+      std::string const b{opt_idx(nc, alg::find_if_opt(nc, pred))};
+      return a == b ? a : a + "!=" + b;
     });
   }
   if (fn == "findbyopt" && np == 1)
@@ -516,7 +691,11 @@ std::string eval_fn(std::string const &fn, char const k, std::vector<ulong> cons
       if (fn == "eqrange")
       {
         auto const r{alg::equal_range(c, value)};
-        return std::to_string(std::distance(c.begin(), r.begin())) + "," + std::to_string(std::distance(c.begin(), r.end()));
+        auto const &cc{c};
+        auto const r2{alg::equal_range(cc, value)};
+        std::string const a{std::to_string(std::distance(c.begin(), r.begin())) + "," + std::to_string(std::distance(c.begin(), r.end()))};
+        std::string const b{std::to_string(std::distance(cc.begin(), r2.begin())) + "," + std::to_string(std::distance(cc.begin(), r2.end()))};
+        return a == b ? a : a + "!=" + b;
       }
       // both the const and the non-const overload
       auto const &cc{c};
@@ -572,17 +751,23 @@ std::string eval_fn(std::string const &fn, char const k, std::vector<ulong> cons
   }
   if (fn == "atopt" && np == 1)
   {
-    ulong const I = ps[0];
-    if (!(k == 'v' || k == 'd' || k == 'a')) return bad;
-    auto const show = [](auto const &o) { return o.has_value() ? std::to_string(o.get_unsafe().get()) : std::string{"none"}; };
+    if (!(k == 'v' || k == 'd' || k == 'a') || ps[0] > 1005) return bad;
+    // below 1000 as they are; 1000.. = indices that differ from small ones only in the high bits
+    static constexpr ulong big[] = {1UL << 31U, 1UL << 32U, (1UL << 32U) + 1UL, 1UL << 63U, ~0UL, (1UL << 33U) + 2UL};
+    ulong const I = ps[0] < 1000 ? ps[0] : big[ps[0] - 1000];
+    auto const show = [I](auto &c, auto const &o) {
+      if (!o.has_value()) return std::string{"none"};
+      // the reference must be the element inside the container
+      return std::to_string(o.get_unsafe().get()) + (&o.get_unsafe().get() == &*(c.begin() + static_cast<std::ptrdiff_t>(I)) ? "" : "!ref");
+    };
     if (k == 'a')
-      return with_size<6>(v.size(), [&](auto n) { auto a{mk_array<SZ(n)>(v, 0)}; return show(con::at_optional(a, I)); });
+      return with_size<6>(v.size(), [&](auto n) { auto a{mk_array<SZ(n)>(v, 0)}; return show(a, con::at_optional(a, I)); });
     return with_seq(k, v, [&](auto &c) -> std::string {
       if constexpr (std::is_same_v<std::remove_cvref_t<decltype(c)>, std::list<int>>) return bad;
       else
       {
         auto const &cc{c};
-        std::string const a{show(con::at_optional(c, I))}, b{show(con::at_optional(cc, I))};
+        std::string const a{show(c, con::at_optional(c, I))}, b{show(cc, con::at_optional(cc, I))};
         return a == b ? a : a + "!=" + b;
       }
     });
@@ -590,7 +775,7 @@ std::string eval_fn(std::string const &fn, char const k, std::vector<ulong> cons
   if (fn == "join" && np == 3)
   {
     ulong const K = ps[0], c1 = ps[1], c2 = ps[2];
-    if (!(sq || k == 's') || K < 1 || K > 3 || c1 > c2 || c2 > v.size()) return bad;
+    if (!(sq || k == 's') || K < 1 || K > 5 || c1 > c2 || c2 > v.size()) return bad;
     return with_seq_set(k, v, [&](auto &proto) {
       using C = std::remove_cvref_t<decltype(proto)>;
       auto const b0 = v.begin();
@@ -599,6 +784,13 @@ std::string eval_fn(std::string const &fn, char const k, std::vector<ulong> cons
       C const a(b0, b0 + static_cast<diff>(c1)), b(b0 + static_cast<diff>(c1), b0 + static_cast<diff>(c2)), c(b0 + static_cast<diff>(c2), v.end());
       C const bc(b0 + static_cast<diff>(c1), v.end());
       std::string l, r;
+      if (K == 4 || K == 5)
+      {
+        // the same object as several arguments (non-const lvalue)
+        C w(v.begin(), v.end());
+        std::string const j{K == 4 ? ds(con::join(w, w)) : ds(con::join(w, w, w))};
+        return w == whole ? j : j + "!source-modified";
+      }
       if (K == 1) { l = ds(con::join(whole)); r = ds(con::join(C{whole})); }
       else if (K == 2) { l = ds(con::join(a, bc)); r = ds(con::join(C{a}, C{bc})); }
       else { l = ds(con::join(a, b, c)); r = ds(con::join(C{a}, b, C{c})); }
@@ -662,7 +854,11 @@ std::string eval_fn(std::string const &fn, char const k, std::vector<ulong> cons
     if (k != 't' || F >= 27) return bad;
     return with_size<3>(v.size(), [&](auto n) {
       auto const src{mk_tuple<SZ(n)>(v, 0)};
-      return ds_tuple(fcppt::tuple::map(src, [F](auto const e) { return static_cast<long>(tbl_f(F, val(e))); }));
+      auto const f = [F](auto const e) { return static_cast<long>(tbl_f(F, val(e))); };
+      std::string const a{ds_tuple(fcppt::tuple::map(src, f))};
+      // the same through algorithm::map (map_tuple.hpp)
+      std::string const b{ds_tuple(alg::map<decltype(fcppt::tuple::map(src, f))>(src, f))};
+      return a == b ? a : a + "!=" + b;
     });
   }
   if (fn == "tpush" && np == 1)
@@ -684,6 +880,476 @@ std::string eval_fn(std::string const &fn, char const k, std::vector<ulong> cons
         });
       });
     });
+  }
+  // ------------------------------------------------------------ aliasing, references
+  if (fn == "removeat" && np == 1)
+  {
+    ulong const I = ps[0];
+    if (!sq || I > 8) return bad;
+    if (I >= v.size()) return skip;
+    return with_seq(k, v, [&](auto &c) {
+      // the element to remove is a reference into the container itself
+      bool const r = alg::remove(c, *std::next(c.begin(), static_cast<std::ptrdiff_t>(I)));
+      return std::string{b01(r)} + "|" + ds(c);
+    });
+  }
+  if (fn == "loopmut" && np == 1)
+  {
+    ulong const B = ps[0];
+    if (!(sq || k == 'a') || B > 8) return bad;
+    auto const run = [B](auto &c) {
+      if (B == 8)
+        alg::loop(c, [](auto &&e) { e = (e + 1) % 3; });
+      else
+        alg::loop_break(c, [B](auto &&e) {
+          bool const brk = bit(B, e);
+          e = (e + 1) % 3;
+          return brk ? fcppt::loop::break_ : fcppt::loop::continue_;
+        });
+      return ds(c);
+    };
+    if (k == 'a')
+      return with_size<6>(v.size(), [&](auto n) { auto a{mk_array<SZ(n)>(v, 0)}; return run(a); });
+    return with_seq(k, v, run);
+  }
+  if (fn == "singular" && np == 2)
+  {
+    ulong const i = ps[0], j = ps[1];
+    if (!(sq || k == 's')) return bad;
+    if (i > j || j > v.size()) return skip;
+    return with_seq_set(k, v, [&](auto &c) {
+      if (i > c.size() || j > c.size()) return skip; // the set may be shorter than the sequence
+      auto const b{std::next(c.begin(), static_cast<std::ptrdiff_t>(i))};
+      auto const e{std::next(c.begin(), static_cast<std::ptrdiff_t>(j))};
+      return std::string{b01(fcppt::range::singular(fcppt::iterator::make_range(b, e)))};
+    });
+  }
+  if (fn == "singularc" && np == 0)
+  {
+    if (!(sq || k == 's' || k == 'f')) return bad;
+    return with_ro(k, v, [&](auto const &c) { return std::string{b01(fcppt::range::singular(c))}; });
+  }
+  // ------------------------------------------------------------ arities
+  if (fn == "ajoin1" && np == 0)
+  {
+    if (k != 'a') return bad;
+    return with_size<6>(v.size(), [&](auto n) {
+      auto const a{mk_array<SZ(n)>(v, 0)};
+      std::string const l{ds(fcppt::array::join(a))}, r{ds(fcppt::array::join(mk_array<SZ(n)>(v, 0)))};
+      return l == r ? l : l + "!=" + r;
+    });
+  }
+  if (fn == "ajoin2" && np == 1)
+  {
+    ulong const c1 = ps[0];
+    if (k != 'a') return bad;
+    if (c1 > v.size() || c1 > 3 || v.size() - c1 > 3) return skip;
+    return with_size<3>(c1, [&](auto n1) {
+      return with_size<3>(v.size() - c1, [&](auto n2) {
+        auto const a{mk_array<SZ(n1)>(v, 0)};
+        auto const b{mk_array<SZ(n2)>(v, c1)};
+        std::string const l{ds(fcppt::array::join(a, b))}, r{ds(fcppt::array::join(mk_array<SZ(n1)>(v, 0), mk_array<SZ(n2)>(v, c1)))};
+        return l == r ? l : l + "!=" + r;
+      });
+    });
+  }
+  if (fn == "ajoin4" && np == 1)
+  {
+    ulong const mask = ps[0];
+    if (k != 'a' || mask > 15) return bad;
+    if (static_cast<std::size_t>(__builtin_popcountl(mask)) != v.size()) return skip;
+    std::size_t const s1 = mask & 1U, s2 = (mask >> 1U) & 1U, s3 = (mask >> 2U) & 1U, s4 = (mask >> 3U) & 1U;
+    return with_size<1>(s1, [&](auto n1) {
+      return with_size<1>(s2, [&](auto n2) {
+        return with_size<1>(s3, [&](auto n3) {
+          return with_size<1>(s4, [&](auto n4) {
+            auto const b{mk_array<SZ(n2)>(v, s1)};
+            return ds(fcppt::array::join(mk_array<SZ(n1)>(v, 0), b, mk_array<SZ(n3)>(v, s1 + s2), mk_array<SZ(n4)>(v, s1 + s2 + s3)));
+          });
+        });
+      });
+    });
+  }
+  if (fn == "tconcatn" && np == 2)
+  {
+    // tuple::concat with 0, 1 or 2 arguments
+    ulong const K = ps[0], c1 = ps[1];
+    if (k != 't' || K > 2) return bad;
+    if (c1 > v.size() || (K == 0 && !v.empty()) || (K <= 1 && c1 != 0)) return skip;
+    if (K == 0) return ds_tuple(fcppt::tuple::concat());
+    if (K == 1)
+      return with_size<3>(v.size(), [&](auto n) {
+        auto const a{mk_tuple<SZ(n)>(v, 0)};
+        std::string const l{ds_tuple(fcppt::tuple::concat(concat_arg(a)))}, r{ds_tuple(fcppt::tuple::concat(mk_tuple<SZ(n)>(v, 0)))};
+        return l == r ? l : l + "!=" + r;
+      });
+    return with_size<3>(c1, [&](auto n1) {
+      return with_size<3>(v.size() - c1, [&](auto n2) -> std::string {
+        if constexpr (SZ(n1) + SZ(n2) > 3) return bad;
+        else
+        {
+          auto const a{mk_tuple<SZ(n1)>(v, 0)};
+          return ds_tuple(fcppt::tuple::concat(concat_arg(a), mk_tuple<SZ(n2)>(v, c1)));
+        }
+      });
+    });
+  }
+  // ------------------------------------------------------------ value categories (probe elements; 9 = moved-from)
+  if ((fn == "vcmap" || fn == "vcfold" || fn == "vcmapopt" || fn == "vcmapcat") && np == 1)
+  {
+    ulong const cat = ps[0];
+    if (cat > 2) return bad;
+    if (k == 'a' && fn == "vcmap")
+    {
+      if (v.size() > 3) return skip;
+      return with_size<3>(v.size(), [&](auto n) {
+        auto a{mk_parray<SZ(n)>(v, 0)};
+        return with_cat(cat, a, [&](auto &&src) {
+          auto const r{fcppt::array::map(FWD(src), [](pe e) { return e; })};
+          return ds(r) + "|" + ds(a);
+        });
+      });
+    }
+    if (k == 't' && fn == "vcmap")
+    {
+      if (v.size() > 3) return skip;
+      return with_size<3>(v.size(), [&](auto n) {
+        auto t{mk_ptuple<SZ(n)>(v, 0)};
+        return with_cat(cat, t, [&](auto &&src) {
+          auto const r{fcppt::tuple::map(FWD(src), [](pe e) { return e; })};
+          return ds_tuple(r) + "|" + ds_tuple(t);
+        });
+      });
+    }
+    if (!sq) return bad;
+    return with_pseq(k, v, [&](auto &c) {
+      return with_cat(cat, c, [&](auto &&src) {
+        std::string r;
+        if (fn == "vcmap")
+          r = ds(alg::map<std::vector<pe>>(FWD(src), [](pe e) { return e; }));
+        else if (fn == "vcfold")
+          r = std::to_string(alg::fold(FWD(src), 0UL, [](pe e, ulong const st) { return st * 4 + static_cast<ulong>(e.v) + 1; }));
+        else if (fn == "vcmapopt")
+          r = ds(alg::map_optional<std::vector<pe>>(FWD(src), [](pe e) { return fcppt::optional::object<pe>{std::move(e)}; }));
+        else
+          r = ds(alg::map_concat<std::vector<pe>>(FWD(src), [](pe e) { return std::vector<pe>{e, e}; }));
+        return r + "|" + ds(c);
+      });
+    });
+  }
+  if (fn == "vcjoin" && np == 5)
+  {
+    ulong const cat1 = ps[0], cat2 = ps[1], cat3 = ps[2], c1 = ps[3], c2 = ps[4];
+    if (!sq || cat1 > 2 || cat2 < 1 || cat2 > 2 || cat3 < 1 || cat3 > 2) return bad;
+    if (c1 > c2 || c2 > v.size()) return skip;
+    return with_pseq(k, v, [&](auto &proto) {
+      using C = std::remove_cvref_t<decltype(proto)>;
+      using diff = seq::difference_type;
+      auto const b0 = v.begin();
+      C a(b0, b0 + static_cast<diff>(c1)), b(b0 + static_cast<diff>(c1), b0 + static_cast<diff>(c2)), c(b0 + static_cast<diff>(c2), v.end());
+      return with_cat(cat1, a, [&](auto &&x) {
+        return with_cat2(cat2, b, [&](auto &&y) {
+          return with_cat2(cat3, c, [&](auto &&z) {
+            auto const r{con::join(FWD(x), FWD(y), FWD(z))};
+            // an rvalue first argument is taken over as a whole: its state afterwards is not specified
+            return ds(r) + "|" + (cat1 == 2 ? std::string{"*"} : ds(a)) + "|" + ds(b) + "|" + ds(c);
+          });
+        });
+      });
+    });
+  }
+  if (fn == "vcappend" && np == 3)
+  {
+    ulong const cat1 = ps[0], cat2 = ps[1], c1 = ps[2];
+    if (k != 'a' || cat1 > 2 || cat2 > 2) return bad;
+    if (c1 > v.size() || c1 > 2 || v.size() - c1 > 2) return skip;
+    return with_size<2>(c1, [&](auto n1) {
+      return with_size<2>(v.size() - c1, [&](auto n2) {
+        auto a{mk_parray<SZ(n1)>(v, 0)};
+        auto b{mk_parray<SZ(n2)>(v, c1)};
+        return with_cat(cat1, a, [&](auto &&x) {
+          return with_cat(cat2, b, [&](auto &&y) {
+            auto const r{fcppt::array::append(FWD(x), FWD(y))};
+            return ds(r) + "|" + ds(a) + "|" + ds(b);
+          });
+        });
+      });
+    });
+  }
+  if (fn == "vcpush" && np == 3)
+  {
+    ulong const cat = ps[0], catx = ps[1], V = ps[2];
+    if (k != 'a' || cat > 2 || catx > 2 || V >= 3) return bad;
+    if (v.size() > 3) return skip;
+    return with_size<3>(v.size(), [&](auto n) {
+      auto a{mk_parray<SZ(n)>(v, 0)};
+      pe x{static_cast<int>(V)};
+      return with_cat(cat, a, [&](auto &&src) {
+        return with_cat(catx, x, [&](auto &&e) {
+          auto const r{fcppt::array::push_back(FWD(src), FWD(e))};
+          return ds(r) + "|" + ds(a) + "|" + std::to_string(x.v);
+        });
+      });
+    });
+  }
+  if (fn == "vcajoin" && np == 5)
+  {
+    ulong const cat1 = ps[0], cat2 = ps[1], cat3 = ps[2], c1 = ps[3], c2 = ps[4];
+    if (k != 'a' || cat1 > 2 || cat2 < 1 || cat2 > 2 || cat3 < 1 || cat3 > 2) return bad;
+    if (c1 > c2 || c2 > v.size() || c1 > 1 || c2 - c1 > 1 || v.size() - c2 > 1) return skip;
+    return with_size<1>(c1, [&](auto n1) {
+      return with_size<1>(c2 - c1, [&](auto n2) {
+        return with_size<1>(v.size() - c2, [&](auto n3) {
+          auto a{mk_parray<SZ(n1)>(v, 0)};
+          auto b{mk_parray<SZ(n2)>(v, c1)};
+          auto c{mk_parray<SZ(n3)>(v, c2)};
+          return with_cat(cat1, a, [&](auto &&x) {
+            return with_cat2(cat2, b, [&](auto &&y) {
+              return with_cat2(cat3, c, [&](auto &&z) {
+                auto const r{fcppt::array::join(FWD(x), FWD(y), FWD(z))};
+                return ds(r) + "|" + ds(a) + "|" + ds(b) + "|" + ds(c);
+              });
+            });
+          });
+        });
+      });
+    });
+  }
+  if (fn == "vcfrom" && np == 2)
+  {
+    ulong const cat = ps[0], N = ps[1];
+    if (!(k == 'v' || k == 'd') || cat > 2 || N > 3) return bad;
+    return with_size<3>(N, [&](auto n) {
+      return with_pseq(k, v, [&](auto &c) -> std::string {
+        if constexpr (std::is_same_v<std::remove_cvref_t<decltype(c)>, std::list<pe>>) return bad;
+        else
+          return with_cat(cat, c, [&](auto &&src) {
+            auto const o{fcppt::array::from_range<SZ(n)>(FWD(src))};
+            return (o.has_value() ? ds(o.get_unsafe()) : std::string{"none"}) + "|" + ds(c);
+          });
+      });
+    });
+  }
+  if (fn == "vctpush" && np == 3)
+  {
+    ulong const cat = ps[0], catx = ps[1], V = ps[2];
+    if (k != 't' || cat > 2 || catx > 2 || V >= 3) return bad;
+    if (v.size() > 2) return skip;
+    return with_size<2>(v.size(), [&](auto n) {
+      auto t{mk_ptuple<SZ(n)>(v, 0)};
+      pe x{static_cast<int>(V)};
+      return with_cat(cat, t, [&](auto &&src) {
+        return with_cat(catx, x, [&](auto &&e) {
+          auto const r{fcppt::tuple::push_back(FWD(src), FWD(e))};
+          return ds_tuple(r) + "|" + ds_tuple(t) + "|" + std::to_string(x.v);
+        });
+      });
+    });
+  }
+  if (fn == "vctconcat" && np == 5)
+  {
+    ulong const cat1 = ps[0], cat2 = ps[1], cat3 = ps[2], c1 = ps[3], c2 = ps[4];
+    if (k != 't' || cat1 < 1 || cat1 > 2 || cat2 < 1 || cat2 > 2 || cat3 < 1 || cat3 > 2) return bad;
+    if (c1 > c2 || c2 > v.size() || c1 > 1 || c2 - c1 > 1 || v.size() - c2 > 1) return skip;
+    return with_size<1>(c1, [&](auto n1) {
+      return with_size<1>(c2 - c1, [&](auto n2) {
+        return with_size<1>(v.size() - c2, [&](auto n3) {
+          auto a{mk_ptuple<SZ(n1)>(v, 0)};
+          auto b{mk_ptuple<SZ(n2)>(v, c1)};
+          auto c{mk_ptuple<SZ(n3)>(v, c2)};
+          return with_cat2(cat1, a, [&](auto &&x) {
+            return with_cat2(cat2, b, [&](auto &&y) {
+              return with_cat2(cat3, c, [&](auto &&z) {
+                auto const r{fcppt::tuple::concat(concat_arg(FWD(x)), concat_arg(FWD(y)), concat_arg(FWD(z)))};
+                return ds_tuple(r) + "|" + ds_tuple(a) + "|" + ds_tuple(b) + "|" + ds_tuple(c);
+              });
+            });
+          });
+        });
+      });
+    });
+  }
+  if (fn == "make" && np == 1)
+  {
+    ulong const t = ps[0];
+    if (k != 'v' || t > 3) return bad;
+    if (v.size() > 4) return skip;
+    return with_size<4>(v.size(), [&](auto n) {
+      std::vector<pe> args(v.begin(), v.end());
+      auto const go = [&]<typename T>(fcppt::tag<T>) {
+        return [&]<std::size_t... I>(std::index_sequence<I...>) {
+          auto const r{con::make<T>(args[I]...)};
+          return ds(r) + "|" + ds(args);
+        }(std::make_index_sequence<SZ(n)>{});
+      };
+      switch (t)
+      {
+      case 0: return go(fcppt::tag<std::vector<pe>>{});
+      case 1: return go(fcppt::tag<std::list<pe>>{});
+      case 2: return go(fcppt::tag<std::deque<pe>>{});
+      default: return go(fcppt::tag<std::set<pe>>{});
+      }
+    });
+  }
+  if (fn == "mvrange" && np == 0)
+  {
+    if (!sq) return bad;
+    return with_pseq(k, v, [&](auto &c) {
+      auto range{con::make_move_range(std::move(c))};
+      auto const &crange{range};
+      std::string const before{ds(crange)};
+      std::vector<pe> read;
+      for (auto &&e : range) // move iterators: e is an rvalue
+        read.push_back(pe{FWD(e)});
+      return before + "|" + ds(read) + "|" + ds(crange);
+    });
+  }
+  if (fn == "mmiter" && np == 1)
+  {
+    // map_iteration over a std::multimap: key of the i-th entry = i / 2 (so keys repeat)
+    ulong const R = ps[0];
+    if (k != 'v' || R >= 8) return bad;
+    std::multimap<int, int> m;
+    for (std::size_t i = 0; i < v.size(); ++i) m.emplace(static_cast<int>(i / 2), v[i]);
+    seq log;
+    alg::map_iteration(m, [&log, R](std::pair<int const, int> const &e) {
+      log.push_back(e.second);
+      return bit(R, e.second) ? alg::update_action::remove : alg::update_action::keep;
+    });
+    std::string r;
+    for (auto const &e : m) r += (r.empty() ? "" : ",") + std::to_string(e.first) + ">" + std::to_string(e.second);
+    return (r.empty() ? "-" : r) + "|" + ds(log);
+  }
+  if (fn == "setiter" && np == 1)
+  {
+    ulong const R = ps[0];
+    if (k != 's' || R >= 8) return bad;
+    std::set<int> c(v.begin(), v.end());
+    seq log;
+    alg::map_iteration(c, [&log, R](int const e) {
+      log.push_back(e);
+      return bit(R, e) ? alg::update_action::remove : alg::update_action::keep;
+    });
+    return ds(c) + "|" + ds(log);
+  }
+  // ------------------------------------------------------------ equal, size, front/back, pop, data, output
+  if (fn == "equal" && np == 2)
+  {
+    ulong const k2 = ps[0], c1 = ps[1];
+    if (!(sq || k == 'f') || k2 > 3) return bad;
+    if (c1 > v.size()) return skip;
+    using diff = seq::difference_type;
+    seq const xs(v.begin(), v.begin() + static_cast<diff>(c1)), ys(v.begin() + static_cast<diff>(c1), v.end());
+    return with_vldf(k, xs, [&](auto const &a) {
+      return with_vldf("vldf"[k2], ys, [&](auto const &b) { return std::string{b01(alg::equal(a, b))}; });
+    });
+  }
+  if (fn == "equalself" && np == 0)
+  {
+    if (!(sq || k == 'f')) return bad;
+    return with_vldf(k, v, [&](auto const &a) { return std::string{b01(alg::equal(a, a))}; });
+  }
+  if (fn == "csize" && np == 0)
+  {
+    if (!ro) return bad;
+    return with_ro(k, v, [&](auto const &c) { return std::to_string(con::size(c)); });
+  }
+  if ((fn == "mfront" || fn == "mback") && np == 0)
+  {
+    bool const front = fn == "mfront";
+    if (!(sq || (front && k == 'f'))) return bad;
+    auto const go = [front](auto &c) -> std::string {
+      auto const &cc{c};
+      auto const show = [front](auto &x, auto const &o) {
+        if (!o.has_value()) return std::string{"none"};
+        bool same;
+        if constexpr (requires { x.back(); }) same = &o.get_unsafe().get() == (front ? &x.front() : &x.back());
+        else same = &o.get_unsafe().get() == &x.front();
+        return std::to_string(o.get_unsafe().get()) + (same ? "" : "!ref");
+      };
+      std::string a, b;
+      if constexpr (requires { c.back(); })
+      {
+        a = front ? show(c, con::maybe_front(c)) : show(c, con::maybe_back(c));
+        b = front ? show(cc, con::maybe_front(cc)) : show(cc, con::maybe_back(cc));
+      }
+      else
+      {
+        a = show(c, con::maybe_front(c));
+        b = show(cc, con::maybe_front(cc));
+      }
+      return a == b ? a : a + "!=" + b;
+    };
+    if (k == 'f') { std::forward_list<int> c(v.begin(), v.end()); return go(c); }
+    return with_seq(k, v, go);
+  }
+  if (fn == "popback" && np == 0)
+  {
+    if (!sq) return bad;
+    return with_seq(k, v, [&](auto &c) {
+      auto const o{con::pop_back(c)};
+      return (o.has_value() ? std::to_string(o.get_unsafe()) : std::string{"none"}) + "|" + ds(c);
+    });
+  }
+  if (fn == "popfront" && np == 0)
+  {
+    if (!(k == 'l' || k == 'd' || k == 'f')) return bad;
+    auto const go = [](auto &c) {
+      auto const o{con::pop_front(c)};
+      return (o.has_value() ? std::to_string(o.get_unsafe()) : std::string{"none"}) + "|" + ds(c);
+    };
+    if (k == 'l') { std::list<int> c(v.begin(), v.end()); return go(c); }
+    if (k == 'd') { std::deque<int> c(v.begin(), v.end()); return go(c); }
+    std::forward_list<int> c(v.begin(), v.end());
+    return go(c);
+  }
+  if (fn == "data" && np == 0)
+  {
+    if (!(k == 'v' || k == 'a')) return bad;
+    auto const go = [](auto &c) -> std::string {
+      auto const &cc{c};
+      auto const one = [](auto &x) -> std::string {
+        auto *const d{con::data(x)};
+        auto *const e{con::data_end(x)};
+        if (d == nullptr || e == nullptr)
+          return std::string{d == nullptr ? "null" : "ptr"} + "|" + (e == nullptr ? "null" : "ptr");
+        return std::string{d == &*x.begin() ? "0" : "elsewhere"} + "|" + std::to_string(e - d);
+      };
+      std::string const a{one(c)}, b{one(cc)};
+      return a == b ? a : a + "!=" + b;
+    };
+    if (k == 'a') // here: std::array (fcppt::array::object has no empty())
+      return with_size<6>(v.size(), [&](auto n) {
+        std::array<int, SZ(n)> a{};
+        for (std::size_t i = 0; i < SZ(n); ++i) a[i] = v[i];
+        return go(a);
+      });
+    std::vector<int> c(v.begin(), v.end());
+    return go(c);
+  }
+  if (fn == "output" && np == 0)
+  {
+    if (!(sq || k == 'f' || k == 's')) return bad;
+    // elements are printed as x*50-3 so that renderings have different lengths and a sign
+    seq w;
+    for (int const x : v) w.push_back(x * 50 - 3);
+    auto const go = [](auto const &c) {
+      std::ostringstream os;
+      os << con::output(c);
+      std::wostringstream wos;
+      wos << con::output(c);
+      std::string a{os.str()}, b;
+      for (wchar_t const ch : wos.str()) b += static_cast<char>(ch);
+      return a == b ? a : a + "!=" + b;
+    };
+    switch (k)
+    {
+    case 'v': { std::vector<int> const c(w.begin(), w.end()); return go(c); }
+    case 'l': { std::list<int> const c(w.begin(), w.end()); return go(c); }
+    case 'd': { std::deque<int> const c(w.begin(), w.end()); return go(c); }
+    case 'f': { std::forward_list<int> const c(w.begin(), w.end()); return go(c); }
+    default: { std::set<int> const c(w.begin(), w.end()); return go(c); }
+    }
   }
   return bad;
 }
@@ -823,6 +1489,57 @@ std::string eval_m(std::string const &fn, std::vector<ulong> const &ps, ulong co
     if (e2 != r.element() || m2 != m || calls2 != calls) out += "!get_or_insert";
     return out + "|" + encode_map(m) + "|" + ds(calls);
   }
+  if (fn == "contains" && ps.size() == 1)
+  {
+    if (ps[0] >= 4) return bad;
+    return b01(con::contains(m, static_cast<int>(ps[0])));
+  }
+  if ((fn == "findopt" || fn == "findit") && ps.size() == 1)
+  {
+    if (ps[0] >= 4) return bad;
+    int const K{static_cast<int>(ps[0])};
+    auto const &cm{m};
+    if (fn == "findit")
+    {
+      auto const a{con::find_opt_iterator(m, K)};
+      auto const b{con::find_opt_iterator(cm, K)};
+      auto const show = [&](auto const &o, auto const &c) {
+        return o.has_value() ? std::to_string(std::distance(c.begin(), std::map<int, int>::const_iterator{o.get_unsafe()})) : std::string{"none"};
+      };
+      std::string const sa{show(a, m)}, sb{show(b, cm)};
+      return sa == sb ? sa : sa + "!=" + sb;
+    }
+    auto const a{con::find_opt(m, K)};
+    auto const b{con::find_opt(cm, K)};
+    auto const show = [&](auto const &o) {
+      if (!o.has_value()) return std::string{"none"};
+      auto const &e{o.get_unsafe().get()};
+      return std::to_string(e.first) + ">" + std::to_string(e.second) + (&e == &*cm.find(K) ? "" : "!ref");
+    };
+    std::string const sa{show(a)}, sb{show(b)};
+    return sa == sb ? sa : sa + "!=" + sb;
+  }
+  if (fn == "insert" && ps.size() == 1)
+  {
+    if (ps[0] >= 12) return bad;
+    bool const r{con::insert(m, std::make_pair(static_cast<int>(ps[0] / 3), static_cast<int>(ps[0] % 3)))};
+    return std::string{b01(r)} + "|" + encode_map(m);
+  }
+  if (fn == "valsref" && ps.size() == 1)
+  {
+    // references stay references: change every mapped value after taking them
+    if (ps[0] >= 3) return bad;
+    auto const refs{con::map_values_ref<std::vector<fcppt::reference<int>>>(m)};
+    for (auto &e : m) e.second = (e.second + static_cast<int>(ps[0])) % 3;
+    std::string b;
+    auto it{m.begin()};
+    for (auto const &r : refs)
+    {
+      b += std::to_string(r.get()) + (&r.get() == &it->second ? "" : "!ref");
+      ++it;
+    }
+    return b.empty() ? "-" : b;
+  }
   if (fn == "keyset" && ps.empty())
     return ds(con::key_set<std::set<int>>(m));
   if (fn == "mapvals" && ps.empty())
@@ -865,6 +1582,19 @@ std::string setop_line(std::string const &op, std::vector<long long> const &a, s
   if (op == "U") return nl(fcppt::container::set_union(sa, sb));
   if (op == "I") return nl(fcppt::container::set_intersection(sa, sb));
   if (op == "D") return nl(fcppt::container::set_difference(sa, sb));
+  // the same object as both operands
+  if (op == "u") return nl(fcppt::container::set_union(sa, sa));
+  if (op == "i") return nl(fcppt::container::set_intersection(sa, sa));
+  if (op == "d") return nl(fcppt::container::set_difference(sa, sa));
+  // container::insert / container::contains: the second list must be a single element
+  if ((op == "N" || op == "C") && b.size() == 1)
+  {
+    int const x{static_cast<int>(b[0])};
+    if (op == "C") return b01(fcppt::container::contains(sa, x));
+    std::set<int> s2{sa};
+    bool const r{fcppt::container::insert(s2, x)};
+    return std::string{b01(r)} + "|" + nl(s2);
+  }
   return bad;
 }
 
@@ -893,6 +1623,8 @@ struct state
 {
   fcppt::container::index_map<int> im{};
   int g{0};
+  std::map<int, int> m{};
+  int calls{0};
 };
 state *st = nullptr;
 
@@ -1015,10 +1747,11 @@ std::string handle(std::vector<std::string> const &t)
   }
   if (op == "dset" && t.size() == 2)
   {
-    if (t[1] != "U" && t[1] != "I" && t[1] != "D") return bad;
+    if (t[1].size() != 1 || std::string{"UIDuidNC"}.find(t[1][0]) == std::string::npos) return bad;
+    bool const single = t[1] == "N" || t[1] == "C";
     std::uint64_t h = vh::fnv_init;
     for (ulong n = 0; n < 64; ++n)
-      h = vh::fnv(h, setop_line(t[1], mask_list(n / 8), mask_list(n % 8)));
+      h = vh::fnv(h, setop_line(t[1], mask_list(n / 8), single ? std::vector<long long>{static_cast<long long>(n % 4)} : mask_list(n % 8)));
     return "D " + vh::hex64(h);
   }
   if (op == "repeat" && t.size() == 2)
@@ -1050,6 +1783,7 @@ std::string handle(std::vector<std::string> const &t)
     case 'v': return nl(fcppt::algorithm::generate_n<std::vector<int>>(*n, f));
     case 'l': return nl(fcppt::algorithm::generate_n<std::list<int>>(*n, f));
     case 'd': return nl(fcppt::algorithm::generate_n<std::deque<int>>(*n, f));
+    case 'r': { auto const r{fcppt::algorithm::generate_n<rc>(*n, f)}; return nl(r) + "|" + r.cap(); }
     default: return bad;
     }
   }
@@ -1066,6 +1800,59 @@ std::string handle(std::vector<std::string> const &t)
           })};
       return nl(a) + "|" + nl(log);
     });
+  }
+  if (op == "dyn" && t.size() == 2)
+  {
+    auto const n{to_nat(t[1])};
+    if (!n || *n > 64) return bad;
+    fcppt::container::dynamic_array<int> a{*n};
+    auto const &ca{a};
+    for (std::size_t i = 0; i < *n; ++i) a.data()[i] = static_cast<int>((i * i + 1) % 7);
+    std::vector<int> back;
+    for (int const *p{ca.data()}; p != ca.data_end(); ++p) back.push_back(*p);
+    return std::to_string(a.size()) + "|" + std::to_string(a.data_end() - a.data()) + "|" + nl(back);
+  }
+  if (op == "hgoi" && t.size() == 2)
+  {
+    auto const K{to_nat(t[1])};
+    if (!K || *K > 3) return bad;
+    int const before{st->calls};
+    auto const r{fcppt::container::get_or_insert_with_result(st->m, static_cast<int>(*K), [](int const k) { return (k + st->calls++) % 3; })};
+    return std::to_string(r.element()) + "," + b01(r.inserted()) + "|" + encode_map(st->m) + "|" + std::to_string(st->calls - before);
+  }
+  if (op == "hins" && t.size() == 3)
+  {
+    auto const K{to_nat(t[1])}, V{to_nat(t[2])};
+    if (!K || !V || *K > 3 || *V > 2) return bad;
+    bool const r{fcppt::container::insert(st->m, std::make_pair(static_cast<int>(*K), static_cast<int>(*V)))};
+    return std::string{b01(r)} + "|" + encode_map(st->m);
+  }
+  if ((op == "hfind" || op == "hcont") && t.size() == 2)
+  {
+    auto const K{to_nat(t[1])};
+    if (!K || *K > 3) return bad;
+    if (op == "hcont") return b01(fcppt::container::contains(st->m, static_cast<int>(*K)));
+    auto const o{fcppt::container::find_opt_mapped(st->m, static_cast<int>(*K))};
+    return o.has_value() ? std::to_string(o.get_unsafe().get()) : "none";
+  }
+  if (op == "hiter" && t.size() == 2)
+  {
+    auto const R{to_nat(t[1])};
+    if (!R || *R > 7) return bad;
+    seq log;
+    fcppt::algorithm::map_iteration_second(st->m, [&log, &R](int const &e) {
+      log.push_back(e);
+      return bit(*R, e) ? fcppt::algorithm::update_action::remove : fcppt::algorithm::update_action::keep;
+    });
+    return encode_map(st->m) + "|" + ds(log);
+  }
+  if (op == "hset" && t.size() == 3)
+  {
+    // assign through the reference returned by get_or_insert
+    auto const K{to_nat(t[1])}, V{to_nat(t[2])};
+    if (!K || !V || *K > 3 || *V > 2) return bad;
+    fcppt::container::get_or_insert(st->m, static_cast<int>(*K), [](int) { ++st->calls; return 0; }) = static_cast<int>(*V);
+    return encode_map(st->m);
   }
   if (op == "reset" && t.size() == 1)
   {
